@@ -15,6 +15,7 @@ EXCEPT = {"sorting": "re-keys the tips that were test-and-set when they were add
 
 def run(db, chk):
     first_parent_rule(db, chk)
+    topo_indegree_order_rule(db, chk)
     fns = [f for f in db.by_crate["gix_traverse"] if f.kind != "promoted" and f.file.endswith("commit/simple.rs")]
     chk.floor("functions in commit/simple.rs", len(fns), 10)
     n = 0
@@ -80,3 +81,26 @@ def first_parent_rule(db, chk):
         chk.ob("first-parent-stops-after-first", "next_by_topology parent loop@%d" % g.line, not leak,
                "the next parent can be taken without re-testing Parents::First (e.g. when the first parent was already seen): first-parent mode would follow other parents",
                g.where(), key="first-parent|next_by_topology|%d" % gates.index(g))
+
+
+def topo_indegree_order_rule(db, chk):
+    """topological walk with lazily computed in-degrees (commit-graph generations): before a parent's in-degree is decremented, the in-degrees down to
+    its generation must have been computed - the comparison of the parent's generation with self.min_gen (which triggers
+    compute_indegrees_to_depth) dominates the decrement in expand_topo_walk.  Otherwise a parent reaches in-degree 1 before all its children were
+    counted and is emitted early and twice, but only when a commit-graph is present."""
+    from gx.flow import comparisons
+    f = db.one(r"^gix_traverse::commit::topo::iter::.*::expand_topo_walk$")
+    fl = Flow(f)
+    decs = [(bi, ln) for bi, si, pl, rv, ln, mc in f.assigns() if rv[0] == "bin" and rv[1].startswith("Sub") and "p" not in rv[3] and rv[3].get("v") == 1]
+    comp = f.calls_to(r"::compute_indegrees_to_depth$")
+    chk.floor("expand_topo_walk: in-degree decrement / compute_indegrees_to_depth", min(len(decs), len(comp)), 1)
+    gens = [c for c in comparisons(f) if c["op"] in ("Lt", "Le", "Gt", "Ge") and any(
+        any(r[0] == "arg" and ".min_gen" in r[2] for r in fl.roots(c[s_], stop_named=False)) for s_ in ("a", "b") if "p" in c[s_])]
+    chk.floor("expand_topo_walk: comparison with self.min_gen", len(gens), 1)
+    for bi, ln in decs:
+        ok = any(f.dominates(g["block"], bi) for g in gens)
+        # the decrement must also not be able to run before the computation on the `needs computing` edge: the call lies between test and decrement
+        ok = ok and all(bi not in f.reach_from(0, avoid=[g["block"] for g in gens]) for _ in (0,))
+        chk.ob("indegrees-computed-before-decrement", "expand_topo_walk decrement@%d" % ln, ok,
+               "a parent's in-degree is decremented on a path that has not yet compared its generation with self.min_gen (and computed the in-degrees down to it)",
+               "%s:%d" % (f.file, ln), key="topo-indegree-order|expand_topo_walk")
